@@ -84,3 +84,8 @@ mod tests {
         assert!(Mac::deserialize(&data).is_err());
     }
 }
+
+// verification hook (guard: cfg(kani)); contract harnesses live outside the repository
+#[cfg(kani)]
+#[path = "/verif/kani/ntp_proto/packet/mac.rs"]
+mod verif;
